@@ -103,7 +103,13 @@ class Templates:
         kinds = kinds or self.statement_classes().get(ci)
         key = f"pending:{ci.name}:{','.join(kinds)}"
         if key not in self._entries:
-            paths = list(pending_paths(self.prog, ci, kinds, constraints=[c05_constraints]))
+            try:
+                paths = list(pending_paths(self.prog, ci, kinds, constraints=[c05_constraints]))
+            except AnalysisError as e:
+                # contained: the other templates are still analysed; the run ends as ANALYSIS-ERROR
+                # (exit 2) unless some rule found a violation, never as a silent pass
+                self.errors[key] = str(e)
+                paths = []
             self._entries[key] = Entry(key, "pending", paths)
         return self._entries[key]
 
